@@ -48,6 +48,10 @@ const STRINGS: &[(&str, Option<&str>)] = &[
     ("'single' quotes", None),
     ("tab\there", None),
     ("%d %s %%", None),
+    ("comma, space ,and ; semi: colon", None),
+    ("( [ { } ] ) = == ~= .. ... :: := -> <=>", None),
+    ("do end then else if local return function nil", None),
+    ("  leading and trailing blanks  ", None),
     ("back\\\\slash pair", Some("backslash_or_newline_in_string_literal")),
     ("a\\n", Some("backslash_or_newline_in_string_literal")),
     ("a\\q", Some("backslash_or_newline_in_string_literal")),
@@ -321,11 +325,32 @@ impl Check for C06 {
                 judge(st, index, "field-name", f, &text, if is_kw { Some("field_name_is_lua_keyword") } else { None });
             }
             1 => {
-                let (s, hz) = STRINGS[((index / 8) as usize) % STRINGS.len()];
-                let body = match rng.below(3) {
+                // second half of the pool: every ASCII byte a literal can hold (all but `"`, `\`, LF, CR, which are
+                // the quarantined feature), each directly followed by digits / letters that an escaping emitter could swallow
+                let bytes: Vec<u8> = (1u8..=127).filter(|b| ![b'"', b'\\', b'\n', b'\r'].contains(b)).collect();
+                let slot = ((index / 8) as usize) % (STRINGS.len() + bytes.len());
+                if slot >= STRINGS.len() {
+                    let b = bytes[slot - STRINGS.len()] as char;
+                    let mut body = String::new();
+                    for (i, follow) in ["", "7", "42", "99", "255", "x41", "z", "u{41}", "n", "065", " 1"].iter().enumerate() {
+                        body.push_str(&format!("    w{} := \"{}{}{}\"\n    print(w{})\n", i, if i % 2 == 0 { "id" } else { "" }, b, follow, i));
+                    }
+                    st.count("string_byte_neighbour_programs");
+                    judge(st, index, "string-literal", &format!("byte {} followed by digits and letters", b as u32), &base("x", &body, ""), None);
+                    return;
+                }
+                let (s, hz) = STRINGS[slot];
+                // the literal alone, or as one of many elements / arguments of a value that is used exactly once
+                // (what the emitter writes inline, however long it gets)
+                let many = |sep: &str| (0..14).map(|i| if i % 3 == 2 { format!("\"pad{}\"", i) } else { format!("\"{}\"", s) }).collect::<Vec<_>>().join(sep);
+                let body = match rng.below(7) {
                     0 => format!("    w := \"{}\"\n    print(w)\n", s),
                     1 => format!("    print(\"{}\" + \"x\")\n", s),
-                    _ => format!("    \"{}\" <=> \"{}\"\n", s, s),
+                    2 => format!("    \"{}\" <=> \"{}\"\n", s, s),
+                    3 => format!("    print([{}])\n", many(", ")),
+                    4 => format!("    w := ({})\n    print(w)\n", many(", ")),
+                    5 => format!("    print([[{}], [{}]])\n", many(", "), many(", ")),
+                    _ => format!("    print({})\n", many(" + ")),
                 };
                 judge(st, index, "string-literal", s, &base("x", &body, ""), hz);
             }
